@@ -7,6 +7,7 @@ import CasbinModel.KeyMatch
 import CasbinModel.Sexpr
 import CasbinModel.Fs
 import CasbinModel.Cached
+import CasbinModel.Config
 /-!
 # Line-protocol driver: runs the executable model on the harness' op stream.
 One op per input line, one canonical answer per output line.
@@ -327,6 +328,26 @@ def step (st : DrvState) (f : List String) : DrvState × String :=
     (st, match EffExpr.ofString (unesc expr) with
          | none => "panic"
          | some e => effRun (Stream.new e cap.toNat!) seq.toList)
+  | ["cfg.parse", text] =>
+    (st, match modelFromText (unesc text).toList with
+      | none => "err"
+      | some secs =>
+        ";".intercalate (secs.flatMap (fun (sc, defs) => defs.map (fun d =>
+          String.singleton sc ++ "." ++ esc (String.ofList d.key) ++ "=" ++ esc (String.ofList d.value) ++ "{" ++ encList (d.tokens.map String.ofList) ++ "}"))))
+  | ["csv.parse", line] =>
+    -- observed through StringAdapter::load_policy of the text "p, <line>" on a model that defines `p`
+    (st, match (("p, " ++ unesc line).toList |> splitLines).head? with
+      | none => "none"
+      | some first =>
+        match parseCsvLine first with
+        | some (key :: rest) => if key == ['p'] then encList ("p" :: rest.map String.ofList) else "none"
+        | _ => "none")
+  | ["re", body, key] =>
+    (st, match compileRe (unesc body).toList with
+      | none => "invalid"
+      | some items => match matchItems items (unesc key).toList with
+        | none => "none"
+        | some caps => "match:" ++ encList (caps.map String.ofList))
   | "km" :: fname :: k :: pat :: rest =>
     let v := match rest with | [x] => unesc x | _ => ""
     let ob (o : Option Bool) : String := match o with | some b => boolS b | none => "unmodelled"
